@@ -563,6 +563,9 @@ class Peel:
 # family: selrun — the reports use the whole-name selector and list exactly the selected rows
 
 REPORTS = ["balance", "register", "equity"]
+# the balance-group report is judged by the python oracle only (rows per group; a group left without rows is omitted)
+ALL_REPORTS = REPORTS + ["balgrp"]
+GROUPED = ("register", "balgrp")
 EQUITY_ACCOUNT = "Equity:Balance"
 
 
@@ -625,12 +628,17 @@ def rows_of(report, out):
     if report == "register":
         es = parse_register_report(o["v"])
         return None if es is None else [(h, [(p[0], num(p[1]), num(p[2]), p[3]) for p in ps]) for h, ps in es]
+    if report == "balgrp":
+        gs = common.parse_balgrp_report(o["v"])
+        if gs is None:
+            return []
+        return [(g["title"], [(r[1], num(r[2]), num(r[3]), r[0]) for r in g["rows"]]) for g in gs]
     return [(r[0], r[1], num(r[2])) for r in parse_equity_export(o["v"])]
 
 
 def filter_rows(report, rows, pred):
     """the rows a report lists when `pred(account)` is the selector"""
-    if report == "register":
+    if report in GROUPED:
         out = []
         for hdr, posts in rows:
             keep = [p for p in posts if pred(p[0])]
@@ -641,7 +649,7 @@ def filter_rows(report, rows, pred):
 
 
 def row_accounts(report, rows):
-    if report == "register":
+    if report in GROUPED:
         return [p[0] for _, posts in rows for p in posts]
     return [r[1] for r in rows]
 
@@ -654,7 +662,7 @@ def eff_sel(cfg, report):
     return g if g is not None else []
 
 
-SEL_KEYS = ["sel_balance", "sel_register", "sel_equity", "sel_global"]
+SEL_KEYS = ["sel_balance", "sel_balgrp", "sel_register", "sel_equity", "sel_global"]
 
 
 def parse_equity_txns(text):
@@ -996,9 +1004,9 @@ class SelRun:
         if mode == "global":
             return {"sel_global": lst}
         if mode == "each":
-            return {"sel_balance": lst, "sel_register": list(lst), "sel_equity": list(lst)}
+            return {"sel_balance": lst, "sel_balgrp": list(lst), "sel_register": list(lst), "sel_equity": list(lst)}
         out = {"sel_global": lst}
-        rep = rng.choice(REPORTS)
+        rep = rng.choice(ALL_REPORTS)
         out["sel_" + rep] = list(lst)
         return out
 
@@ -1015,6 +1023,14 @@ class SelRun:
             for k in range(1, len(ps) + 1):
                 names.add(":".join(ps[:k]))
         layout = common.gen_layout(rng)
+        # how the implementation is told: everything in the file; or the same meaning with command-line overlaps —
+        # `--group-by` repeating the file's value (must not disturb any selector), `--accounts` carrying the list when
+        # every report resolves to the same non-empty list (it replaces every selector of the file)
+        effs = [eff_sel(cfg, r) for r in ALL_REPORTS]
+        routes = ["file", "file", "cli-group-by"]
+        if effs[0] and all(e == effs[0] for e in effs):
+            routes += ["cli-accounts", "cli-accounts"]
+        cfg["route"] = rng.choice(routes)
         return {"fam": "selrun", "op": "run", "kind": "sel:" + kind, "sel_kinds": sorted(set(kinds or [kind])), "cfg": cfg,
                 "txns": txns, "layout": layout, "text": common.render_journal(txns, layout),
                 "names": sorted(names), "py": pats.py, "perl": pats.perl}
@@ -1097,9 +1113,16 @@ class SelRun:
         return out
 
     def impl_cases(self, case):
-        base = {k: v for k, v in case["cfg"].items() if not k.startswith("sel_")}
-        return [{"op": "run", "cfg": case["cfg"], "text": case["text"], "want": REPORTS},
-                {"op": "run", "cfg": base, "text": case["text"], "want": REPORTS}]
+        base = {k: v for k, v in case["cfg"].items() if not k.startswith("sel_") and k != "route"}
+        cfg = {k: v for k, v in case["cfg"].items() if k != "route"}
+        route = case["cfg"].get("route", "file")
+        if route == "cli-group-by":
+            cfg["ov_group_by"] = cfg.get("group_by", "month")
+        elif route == "cli-accounts":
+            lst = eff_sel(case["cfg"], "balance")
+            cfg = dict(base, sel_global=["zzz:never:posted"], sel_equity=["zzz:other"], ov_accounts=lst)
+        return [{"op": "run", "cfg": cfg, "text": case["text"], "want": ALL_REPORTS},
+                {"op": "run", "cfg": base, "text": case["text"], "want": ALL_REPORTS}]
 
     def join(self, case, answers):
         a, b = answers
@@ -1120,7 +1143,7 @@ class SelRun:
         if impl.get("r") != "OK":
             return None, 0
         compared = 0
-        for rep in REPORTS:
+        for rep in ALL_REPORTS:
             pred = pred_of(rep)
             if pred is None:
                 continue
